@@ -31,6 +31,7 @@ INIT Init
 NEXT Next
 INVARIANT TypeOK
 INVARIANT Bookkeeping
+INVARIANT ReturnsEnergy
 INVARIANT ChosenAreMax
 INVARIANT ConvergedMeansSmall
 INVARIANT NotConverged
@@ -65,14 +66,17 @@ def replay(bh, pool_size, max_cycles):
         return list(script[len(calls) - 1])
     s.compute_gradients = scripted
     try:
-        s.simulate()
+        e_ret = s.simulate()
     except IndexError as e:
         return {"exception": "IndexError: %s" % e, "ncalls": len(calls), "converged": bool(s.converged)}
     chosen = []
     for op in s.ansatz.operators:
         idx = [i for i, p in enumerate(s.pool_operators) if p == op]
         chosen.append(idx[0] + 1 if idx else -1)
-    return {"ops": chosen, "converged": bool(s.converged), "iter": s.iteration, "ncalls": len(calls),
+    ref_gap = None
+    if not s.ansatz.operators:      # nothing appended: the returned energy must be the one of the reference state
+        ref_gap = max(abs(float(e_ret) - float(s.molecule.mf_energy)), abs(float(e_ret) - float(s.energies[-1])))
+    return {"ops": chosen, "converged": bool(s.converged), "iter": s.iteration, "ncalls": len(calls), "ref_gap": ref_gap,
             "nparams": len(s.vqe_solver.ansatz.var_params) if s.ansatz.operators else 0, "nenergies": len(s.energies)}
 
 
@@ -104,8 +108,10 @@ def run(chk):
             bad = "converged=%s, spec %s" % (got["converged"], bhs[0]["converged"])
         elif got["iter"] != bhs[0]["iter"] or got["ncalls"] != len(bhs[0]["script"]):
             bad = "cycles %d / gradient evaluations %d, spec %d / %d" % (got["iter"], got["ncalls"], bhs[0]["iter"], len(bhs[0]["script"]))
-        elif got["nparams"] != len(got["ops"]) or got["nenergies"] != len(got["ops"]):
-            bad = "parameters %d / energies %d for %d operators" % (got["nparams"], got["nenergies"], len(got["ops"]))
+        elif got["nparams"] != len(got["ops"]) or got["nenergies"] != bhs[0]["nenergies"]:
+            bad = "parameters %d / energies %d for %d operators (spec: %d energies)" % (got["nparams"], got["nenergies"], len(got["ops"]), bhs[0]["nenergies"])
+        elif got["ref_gap"] is not None and got["ref_gap"] > 1e-8:
+            bad = "no operator appended but the returned energy differs from the reference-state energy by %.3g" % got["ref_gap"]
         if bad:
             chk.violation("adapt-loop", bad, {"script": bhs[0]["script"], "got": got})
     chk.sample({"behaviour": by_script[sorted(by_script)[len(by_script) // 2]][0]})
